@@ -21,7 +21,7 @@ TIMEOUT = 60.0
 RULE = ('BFS from 7 containers (one with zero cycles, one with cycles of thousands of samples - depth 2 only) over 30 state-changing operations (8 metric computations in cycle / augmented mode, 4 metric '
         'additions incl. a wrong-length one, 2 re-additions of a stored chain metric under another name, cycle timings, 14 subset selections covering all six comparators, '
         'negative / decimal / exponent literals and chain-level metrics, chain timings) to the fix-point of canonical states or the depth bound; '
-        '14 observations after every transition; non-trivial = the operation changed the canonical state')
+        '17 observations (queries, three iterators, three tables) after every transition; non-trivial = the operation changed the canonical state')
 ASSUMPTIONS = ['subset selections are only offered when every metric they name exists (a failed selection leaves the '
                'container half-updated; that error path is outside the statement)',
                'augmented-mode metrics are judged against the model only for cycles whose preceding cycle has monotone '
@@ -342,6 +342,22 @@ def observe(C, model, label, d, viols, tables=True):
             return
     if not tables:
         return
+    # the container's iterators: samples of every cycle / every selected cycle / every chain, in order
+    routes = [('cycles', [list(range(a, b)) for a, b in model.segs])]
+    if model.conds is not None:
+        sel_cycles = [c for c in range(model.K) if model.subset[c] >= 0]        # (possibly none: an empty selection is legal)
+        routes.append(('subset', [list(range(*model.segs[c])) for c in sel_cycles]))
+        nch = (max(model.chain) + 1) if model.chain else 0
+        routes.append(('chains', [[i for c in sel_cycles if model.chain[model.subset[c]] == k for i in range(*model.segs[c])] for k in range(nch)]))
+    for through, want in routes:
+        try:
+            got = [[int(v) for v in np.asarray(inds).reshape(-1)] for _, inds in C.iterate(through=through)]
+        except Exception as e:
+            viols.append(('iterate:raise:%s' % type(e).__name__, '%s [%s]: iterate(through=%r) raised %r' % (d, label, through, e)))
+            return
+        if got != want:
+            viols.append(('iterate:%s' % through, '%s [%s]: iterate(through=%r) yields %s, model %s' % (d, label, through, got[:4], want[:4])))
+            return
     # tabular exports
     for what in ('all', 'subset', 'conditions'):
         try:
